@@ -1,10 +1,18 @@
 (* C03 Capacity bound: never more than N unconsumed values, never an overwrite.
    Proved here: the capacity N the queue uses is the requested capacity rounded up to a power of two, minimum 1
    (the arithmetic of countedindex.rs get_valid_wrap, all requests below 2^62-1), and the exact meaning of the
-   producers' "ring is full" test and of the scan arithmetic under the no-wrap bound.  The window invariant
-   itself is in the files named in the MANIFEST entry. *)
-From Coq Require Import NArith List Bool.
-Require Import MQ.Arith64 MQ.Arith64Facts MQ.Types MQ.State MQ.Model MQ.Exec MQ.Reach.
+   producers' "ring is full" test and of the scan arithmetic under the no-wrap bound; and the window invariant
+   itself (C03_window, C03_no_overwrite below): in every state of every execution - any population of
+   handles, any interleaving of micro-steps, including states in the middle of calls - no registered stream's
+   cursor is ahead of the head counter and the head counter is at most N ahead of any registered cursor, so at
+   most N claimed values are unconsumed on any stream and the slot of an unconsumed value is never claimed again.
+   The executions covered are those of [mreachN]: all micro-steps except a publishing compare-exchange of
+   add_stream that succeeds although the parent cursor has moved since the new cursor was initialised from it -
+   that step is known finding F11 (it does break the window: see known_findings.json and the replay there), and
+   it is excluded by the predicate [f11_bad], which names exactly that step. *)
+From Coq Require Import NArith List Bool Lia.
+Require Import MQ.Arith64 MQ.Arith64Facts MQ.Types MQ.State MQ.Model MQ.Exec MQ.Reach MQ.RecvDefs MQ.InvReg MQ.WinStep MQ.WinDefs MQ.InvWin MQ.WinRun.
+Import ListNotations.
 Open Scope N_scope.
 
 Theorem C03_capacity : forall v, v < MAX_WRAP ->
@@ -35,3 +43,109 @@ Print Assumptions C03_scan_distance.
 Example C03_capacity_values :
   List.map get_valid_wrap (0 :: 1 :: 2 :: 3 :: 4 :: 5 :: 8 :: 9 :: nil) = (1 :: 1 :: 2 :: 4 :: 4 :: 8 :: 8 :: 16 :: nil).
 Proof. vm_compute. reflexivity. Qed.
+
+(* ---- the window invariant ---- *)
+Theorem C03_window : forall c fut s,
+  0 < c_n c -> c_n c <= B61 -> mreachN c fut s ->
+  lenN (ags s) < B62 -> lenN (g_log (sh s)) < B62 ->
+  forall sg, In sg (streams (sh s)) ->
+    gpos (sh s) sg <= head (sh s) /\ head (sh s) <= gpos (sh s) sg + c_n c.
+Proof.
+  intros c fut s Np Ns R S1 S2 sg IN.
+  destruct (win_mreachN c Np Ns fut s R (conj S1 S2)) as (G & _).
+  pose proof (w_tail_le_cursor c _ G sg IN). pose proof (w_head_le_tail_n c _ G).
+  pose proof (w_cursor_le_head c _ G sg IN). split; lia.
+Qed.
+Check C03_window : forall c fut s,
+  0 < c_n c -> c_n c <= B61 -> mreachN c fut s ->
+  lenN (ags s) < B62 -> lenN (g_log (sh s)) < B62 ->
+  forall sg, In sg (streams (sh s)) ->
+    gpos (sh s) sg <= head (sh s) /\ head (sh s) <= gpos (sh s) sg + c_n c.
+Print Assumptions C03_window.
+
+(* a sender that has passed the full test and is about to claim (P5: plain store, M5: compare-exchange)
+   claims a position less than N ahead of every registered cursor: the slot it will write holds a value that
+   every registered stream has consumed *)
+Theorem C03_no_overwrite : forall c fut s a A,
+  0 < c_n c -> c_n c <= B61 -> mreachN c fut s ->
+  lenN (ags s) < B62 -> lenN (g_log (sh s)) < B62 ->
+  get (ags s) a = Some A -> (a_pc A = P5 \/ a_pc A = M5) ->
+  forall sg, In sg (streams (sh s)) -> r_h (a_r A) < gpos (sh s) sg + c_n c.
+Proof.
+  intros c fut s a A Np Ns R S1 S2 EA PC sg IN.
+  destruct (win_mreachN c Np Ns fut s R (conj S1 S2)) as (G & IA).
+  destruct (IA a A EA) as (SA & _). pose proof (w_tail_le_cursor c _ G sg IN) as T.
+  unfold sa in SA. destruct PC as [PC | PC]; rewrite PC in SA; destruct SA as (_ & PS); unfold PASS in PS; lia.
+Qed.
+Check C03_no_overwrite : forall c fut s a A,
+  0 < c_n c -> c_n c <= B61 -> mreachN c fut s ->
+  lenN (ags s) < B62 -> lenN (g_log (sh s)) < B62 ->
+  get (ags s) a = Some A -> (a_pc A = P5 \/ a_pc A = M5) ->
+  forall sg, In sg (streams (sh s)) -> r_h (a_r A) < gpos (sh s) sg + c_n c.
+Print Assumptions C03_no_overwrite.
+
+(* a consumer that has matched the tag of its position reads a claimed position (never ahead of the head) *)
+Theorem C03_reader_behind_head : forall c fut s a A,
+  0 < c_n c -> c_n c <= B61 -> mreachN c fut s ->
+  lenN (ags s) < B62 -> lenN (g_log (sh s)) < B62 ->
+  get (ags s) a = Some A -> matched (a_pc A) = true -> r_p (a_r A) < head (sh s).
+Proof.
+  intros c fut s a A Np Ns R S1 S2 EA MT.
+  destruct (win_mreachN c Np Ns fut s R (conj S1 S2)) as (_ & IA).
+  destruct (IA a A EA) as (_ & _ & (_ & RA) & _). exact (RA MT).
+Qed.
+Check C03_reader_behind_head : forall c fut s a A,
+  0 < c_n c -> c_n c <= B61 -> mreachN c fut s ->
+  lenN (ags s) < B62 -> lenN (g_log (sh s)) < B62 ->
+  get (ags s) a = Some A -> matched (a_pc A) = true -> r_p (a_r A) < head (sh s).
+Print Assumptions C03_reader_behind_head.
+
+(* the executions the theorems cover contain every reachable state up to the excluded step *)
+Theorem C03_covered_executions : forall c fut s, mreachN c fut s -> mreach c fut s.
+Proof. exact mreachN_mreach. Qed.
+Check C03_covered_executions : forall c fut s, mreachN c fut s -> mreach c fut s.
+Print Assumptions C03_covered_executions.
+
+(* non-vacuity: a capacity-2 broadcast queue, a second stream, a cloned sender; the ring is exactly full
+   (head = slowest cursor + N) in a state the theorems apply to *)
+Example C03_window_witness :
+  let c := mk_cfg BCast 2 WBusy in
+  exists s, mreachN c false s /\ 0 < c_n c /\ c_n c <= B61 /\ lenN (ags s) < B62 /\ lenN (g_log (sh s)) < B62 /\
+    streams (sh s) = [0; 1] /\ head (sh s) = 3 /\ gpos (sh s) 0 = 1 /\ gpos (sh s) 1 = 1 /\ c_n c = 2.
+Proof.
+  cbv zeta.
+  destruct (m_run true (mk_cfg BCast 2 WBusy) (init false)
+              [MCall 0 (CTrySend 5) 60; MCall 1 (CAddStream 2) 60; MCall 0 (CTrySend 6) 60; MCall 0 (CTrySend 7) 60;
+               MCall 1 CTryRecv 60; MCall 0 (CTrySend 7) 60; MCall 2 CTryRecv 60; MCall 0 (CClone 3) 60;
+               MCall 3 (CTrySend 8) 60]) as [s|] eqn:E; [|vm_compute in E; discriminate E].
+  exists s. split; [eapply m_run_sound; [apply mrn_init|exact E]|].
+  vm_compute in E. injection E as <-. vm_compute. repeat split; intros X; discriminate X.
+Qed.
+
+(* the exclusion is necessary: over the unrestricted reachability the window statement is false.  The
+   state s below is covered by the theorems; one more micro-step of agent 1 - the publishing compare-exchange
+   of its add_stream, which [f11_bad] names - registers stream 1 with cursor 0 while the head counter is 4 and
+   N = 2.  This is known finding F11 (replayed on the real code by findings/F11_addstream_shared_parent.scn). *)
+Example C03_window_refuted_without_exclusion :
+  let c := mk_cfg BCast 2 WBusy in
+  exists s A s', mreachN c false s /\ get (ags s) 1 = Some A /\ f11_bad (sh s) A /\
+    m_step false c s 1 = Some s' /\ mreach c false s' /\
+    In 1 (streams (sh s')) /\ head (sh s') = 4 /\ gpos (sh s') 1 = 0 /\ c_n c = 2 /\
+    ~ (head (sh s') <= gpos (sh s') 1 + c_n c).
+Proof.
+  cbv zeta.
+  set (pre := [MCall 1 (CClone 2) 60; MCall 0 (CTrySend 1) 60; MCall 0 (CTrySend 2) 60; MBegin 1 (CAddStream 3); MSteps 1 3;
+               MCall 2 CTryRecv 60; MCall 2 CTryRecv 60; MCall 0 (CTrySend 3) 60; MCall 0 (CTrySend 4) 60]).
+  destruct (m_run true (mk_cfg BCast 2 WBusy) (init false) pre) as [s|] eqn:E; [|vm_compute in E; discriminate E].
+  assert (R : mreachN (mk_cfg BCast 2 WBusy) false s) by (eapply m_run_sound; [apply mrn_init|exact E]).
+  destruct (get (ags s) 1) as [A|] eqn:EA; [|vm_compute in E; injection E as <-; vm_compute in EA; discriminate EA].
+  destruct (m_step false (mk_cfg BCast 2 WBusy) s 1) as [s'|] eqn:ES;
+    [|vm_compute in E; injection E as <-; vm_compute in ES; discriminate ES].
+  exists s, A, s'. split; [exact R|]. split; [exact EA|].
+  assert (R' : mreach (mk_cfg BCast 2 WBusy) false s')
+    by (eapply m_step_mreach; [apply (mreachN_mreach _ _ _ R)|exact ES]).
+  vm_compute in E. injection E as <-. vm_compute in EA. injection EA as <-. vm_compute in ES. injection ES as <-.
+  split; [vm_compute; repeat split; intros X; discriminate X|].
+  split; [reflexivity|]. split; [exact R'|].
+  vm_compute. repeat split; auto; intros X; discriminate X.
+Qed.
